@@ -58,6 +58,10 @@ def configs(tier):
     for K, shape, nak in itertools.product((1, 2) if tier == "thorough" else (1,), ("existing", "dir_existing"), ("imm", "def")):
         out.append(dict(mode="ack", K=K, size=L + 1, seg=L, nak=nak, closure=False, shape=shape, ack_limit=K + 1, nak_limit=K + 1,
                         check_limit=K + 1, link="k"))
+    # two consecutive transactions on the same pair of handlers; the K faults may fall into either
+    for K, nak in itertools.product((1, 2), ("imm", "def")):
+        out.append(dict(mode="ack", K=K, size=2 * L + 1 if K == 2 else L + 1, seg=L, nak=nak, closure=False, ack_limit=K + 1, nak_limit=K + 1,
+                        check_limit=K + 1, link="k", tx2=dict(req_mode="ack", req_closure=False)))
     return out
 
 
